@@ -2,8 +2,9 @@
 """Copy a verified seeded change into /verif/seeded/<pid>-<n>/ (patch.diff, demo.py, meta.json + what was confirmed)."""
 import json, os, shutil, sys
 pid = sys.argv[1]
-for n in sorted(os.listdir("/tmp/mut_%s_out" % pid)):
-    src = "/tmp/mut_%s_out/%s" % (pid, n)
+pre = sys.argv[2] if len(sys.argv) > 2 else "mut"
+for n in sorted(os.listdir("/tmp/%s_%s_out" % (pre, pid))):
+    src = "/tmp/%s_%s_out/%s" % (pre, pid, n)
     vf = "/tmp/seed_%s_%s_verify.json" % (pid, n)
     if not (os.path.isdir(src) and os.path.exists(src + "/patch.diff") and os.path.exists(vf)):
         continue
